@@ -94,3 +94,16 @@ PROPS["C16"] = dict(
         R("C16.arbitrary_text", "codec", "TestC16ArbitraryText", 8000, 500000),
     ],
 )
+
+PROPS["C06"] = dict(
+    level="fault_enumeration",
+    technique="exhaustive enumeration of bounded fault schedules (deliver/duplicate/reorder/reflect/drop/retransmit) over a real session pair plus rapid random schedules, each followed by a fair suffix",
+    level_text="Every schedule of enabled actions up to the reported depth is executed against two real sessions (sessions are timer-free, so this is deterministic), with progress/idempotence invariants after each action and a fair suffix after each schedule; random schedules of length up to 60 extend beyond the bound. Exhaustive to the depth stated in the evidence, sampled beyond it.",
+    level_note="One honest pair with fixed keys and a fixed clock; the adversary only manipulates genuine messages of this pair (forgery is C03's subject).",
+    design_ref="4/C06",
+    assumptions=["sessions do not expire during a schedule (fixed clock)"],
+    subs=[
+        P("C06.schedules_exhaustive", "ke", "TestC06Exhaustive", qto=600, tto=3000),
+        R("C06.schedules_random", "ke", "TestC06Random", 1500, 60000),
+    ],
+)
